@@ -228,6 +228,12 @@ func init() {
 				m := c.runner.Ask(fmt.Sprintf("ycc %d %d %d", y, cb, cr))
 				c.res.ModelCases++
 				c.res.Streams["ycc"]++
+				if rng.Intn(400) == 0 {
+					var a1, a2, a3, b1, b2, b3, b4 int
+					if n, _ := fmt.Sscanf(m, "%d,%d,%d %d,%d,%d,%d", &a1, &a2, &a3, &b1, &b2, &b3, &b4); n == 7 {
+						xcheck("ycc", 40, fmt.Sprintf("(ycbcr_to_rgb8 %d %d %d, ycbcr_rgba16 %d %d %d) = ((%d, %d, %d), (%d, %d, %d, %d))", y, cb, cr, y, cb, cr, a1, a2, a3, b1, b2, b3, b4))
+					}
+				}
 				if m != impl {
 					c.res.mismatch(Mismatch{Stream: "ycc", Input: []uint8{y, cb, cr}, Impl: impl, Model: m})
 				}
@@ -241,6 +247,12 @@ func init() {
 				if m != fmt.Sprint(r) {
 					c.res.mismatch(Mismatch{Stream: "premul", Input: []uint8{ch, a}, Impl: fmt.Sprint(r), Model: m})
 				}
+				if rng.Intn(400) == 0 {
+					xcheck("premul", 30, fmt.Sprintf("nrgba_premul %d %d = %s", ch, a, m))
+				}
+			}
+			if st := writeXCheck(c.out+"/Gen", "From Coq Require Import ZArith.\nFrom PrismV Require Import Img.Convert."); st != nil {
+				c.res.GenStages = append(c.res.GenStages, st)
 			}
 		}
 		c.res.sample(map[string]interface{}{"helper": "ConvertImageToRGBA64", "input": "YCbCr420 sub-image", "parallelism": []int{1, 2, 3, 7, 16}})
